@@ -123,6 +123,9 @@ type MonStaking struct {
 	Res  *WorkerResult
 	U, M uint64
 
+	ffSeenAt int64                 // block height ffSeen belongs to
+	ffSeen   map[uint64][]c16FundV // funds per height as last read in this block
+
 	addrs    map[types.Address]bool
 	addrList []types.Address
 
@@ -527,12 +530,40 @@ func (m *MonStaking) BeforeTx(s *Sim, i int, raw []byte, meta *TxMeta) {
 		p.locked = m.lockedUntil[p.sender] > h
 	}
 	m.pend = p
+	// h+U and h+M: BeginBlock of this very block may have added funds there (re-frozen moves, removals): ask the node
 	m.ffBefore = map[uint64][]c16FundV{h + m.U: m.funds(s, h+m.U), h + m.M: m.funds(s, h+m.M)}
+	if m.ffSeenAt == int64(h) {
+		m.ffSeen[h+m.U], m.ffSeen[h+m.M] = m.ffBefore[h+m.U], m.ffBefore[h+m.M]
+	}
 	if p.typ == tx.TypeLock && p.decoded {
 		if _, ok := m.ffBefore[p.due]; !ok {
-			m.ffBefore[p.due] = m.funds(s, p.due)
+			m.ffBefore[p.due] = m.fundsBefore(s, p.due)
 		}
 	}
+}
+
+// fundsBefore returns the funds of a height as they are before the next transaction WITHOUT asking the node where that can be
+// avoided: reading a height through the accessor loads its record into the node's cache, and a node that forgot to load it
+// itself would be repaired by the monitor (lead: seed C16-m4 was masked that way). Heights already read in this block come
+// from the monitor's own memory, otherwise from the export of the last commit (disk); only in blocks with byzantine evidence
+// (BeginBlock rewrites funds of many heights) the accessor is asked.
+func (m *MonStaking) fundsBefore(s *Sim, height uint64) []c16FundV {
+	if m.ffSeenAt != s.CurReq.Height {
+		m.ffSeenAt, m.ffSeen = s.CurReq.Height, map[uint64][]c16FundV{}
+	}
+	if l, ok := m.ffSeen[height]; ok {
+		return l
+	}
+	if len(s.CurReq.Byzantine) > 0 || s.Post == nil || height <= uint64(s.CurReq.Height) {
+		return m.funds(s, height)
+	}
+	var out []c16FundV
+	for _, f := range s.Post.FrozenFunds {
+		if f.Height == height {
+			out = append(out, c16FundV{c16Fund{height, f.Address, f.Coin, f.CandidateID, f.MoveToCandidateID, f.CandidateKey != nil}, BI(f.Value)})
+		}
+	}
+	return out
 }
 
 func (m *MonStaking) AfterTx(s *Sim, i int, raw []byte, meta *TxMeta, res *abci.ResponseDeliverTx) {
@@ -594,7 +625,11 @@ func (m *MonStaking) AfterTx(s *Sim, i int, raw []byte, meta *TxMeta, res *abci.
 	}
 	sort.Slice(hs, func(a, b int) bool { return hs[a] < hs[b] })
 	for _, hh := range hs {
-		ad, rm := newFunds(m.ffBefore[hh], m.funds(s, hh))
+		now := m.funds(s, hh)
+		if m.ffSeenAt == int64(h) {
+			m.ffSeen[hh] = now
+		}
+		ad, rm := newFunds(m.ffBefore[hh], now)
 		added = append(added, ad...)
 		for _, f := range rm {
 			m.viol(s, "fund-vanished-early", "DeliverTx", fmt.Sprintf("%s disappeared during tx type %02x (code %d) at height %d", fundStr(f), byte(p.typ), res.Code, h), int64(h), i)
@@ -1148,6 +1183,13 @@ func runC16(ctx *WorkCtx, idx int) {
 	d.PByz = 0.004
 	d.PAbsent = 0.005
 	for i := 0; i < blocks && !s.Dead && !s.Stopped; i++ {
+		if i > 0 && d.R.Intn(10) == 0 {
+			// process restart: what is frozen must be what the disk holds (lead: added after seed C16-m4, a fund added after a
+			// restart to a height that already has a committed record)
+			s.Restart()
+			ctx.Res.Count("restarts", 1)
+			ctx.Res.Seen("process restarted while funds are frozen")
+		}
 		c16Block(d, sc.Family)
 	}
 	ctx.Res.Count("blocks", s.H-s.W.InitialHeight+1)
@@ -1191,7 +1233,25 @@ func c16Aimed(d *Driver, family string) []*draft {
 		}
 		return x
 	}
-	switch R.Intn(5) {
+	switch R.Intn(6) {
+	case 5: // a Lock that matures at a height which already holds a fund of somebody (lead: added after seed C16-m4)
+		var hs []uint64
+		for _, f := range e.FrozenFunds {
+			if f.Height > h+1 {
+				hs = append(hs, f.Height)
+			}
+		}
+		if len(hs) == 0 {
+			break
+		}
+		k := g.user()
+		c, b := g.heldCoin(k.Addr)
+		if b.Sign() <= 0 {
+			break
+		}
+		snd := Senderish{K: k}
+		out = append(out, &draft{t: tx.TypeLock, kind: "valid", note: "aimed-lock-at-occupied-height", sender: &snd,
+			data: tx.LockData{DueBlock: uint32(hs[R.Intn(len(hs))]), Coin: c, Value: part(b)}})
 	case 0: // move to the weakest non-validator candidate (the next one to be removed in a crowded set) or an offline one
 		st := g.pickStake()
 		if st == nil {
